@@ -143,13 +143,33 @@ func (fdb *fsDb) Put(ctx context.Context, key []byte, val []byte) error {
 	}
 	logg.TraceCtxf(ctx, "fs put", "key", key, "lk", lk, "flk", flk, "val", val)
 	if flk.Translation != "" {
-		err = ioutil.WriteFile(flk.Translation, val, 0600)
-		if err != nil {
-			return err
-		}
-		return nil
+		return writeFileAtomic(flk.Translation, val)
 	}
-	return ioutil.WriteFile(flk.Default, val, 0600)
+	return writeFileAtomic(flk.Default, val)
+}
+
+// write to a temporary file in the same directory, then rename it into place,
+// so that a reader (or a restart after a crash) never finds a truncated record.
+func writeFileAtomic(fp string, val []byte) error {
+	f, err := os.CreateTemp(path.Dir(fp), ".tmp-*")
+	if err != nil {
+		return err
+	}
+	tmp := f.Name()
+	_, err = f.Write(val)
+	if err == nil {
+		err = f.Chmod(0600)
+	}
+	if cerr := f.Close(); err == nil {
+		err = cerr
+	}
+	if err == nil {
+		err = os.Rename(tmp, fp)
+	}
+	if err != nil {
+		os.Remove(tmp)
+	}
+	return err
 }
 
 // Close implements the Db interface.
